@@ -209,7 +209,7 @@ def gen_case(rng):
     c = float(np.ldexp(1.0, int(rng.integers(-8, 9)) if rng.random() < .75 else int(rng.integers(-40, 41))))
     if r < .55:
         sr = float(gens.pick(rng, [1, 100, 512, 2000]))
-        n = int(gens.pick(rng, [512, 1000, 4000, 4000, 30000]))
+        n = int(gens.pick(rng, [512, 1000, 4000, 4000, 30000])) if rng.random() > .02 else int(gens.pick(rng, [65537, 70001, 100003, 131071]))
         cyc = rng.uniform(10, n / 12)
         return {'kind': 'sin', 'method': gens.pick(rng, ['hilbert', 'nht', 'quad']), 'sr': sr, 'n': n, 'f': float(cyc * sr / n),
                 'A': float(10 ** rng.uniform(-1.5, 1.5)), 'ph0': float(rng.uniform(0, 2 * np.pi)), 'ncol': int(rng.integers(1, 4)), 'c': c,
@@ -265,6 +265,12 @@ def run_shard(ctx):
     rng = ctx.rng
     n = NCASES[ctx.tier] // ctx.nshards
     seen = set()
+    if ctx.shard % 8 == 3:
+        # one very large set of IMFs per run (size-dependent code paths): 720 000 samples x 3 columns
+        big = {'kind': 'sin', 'method': gens.pick(rng, ['hilbert', 'nht']), 'sr': 1000.0, 'n': 720000, 'f': float(rng.uniform(20, 80)),
+               'A': 2.0, 'ph0': float(rng.uniform(0, 6)), 'ncol': 3, 'c': 4.0, 'sr_form': 'float', 'exact_zeros': 0}
+        check_sinusoid(ctx, big)
+        ctx.count('very_long_recordings')
     for i in range(n):
         if ctx.out_of_time():
             break
